@@ -149,6 +149,16 @@ def impl(c):
     except Exception as e:
         res["id_perm"] = "error:" + exc_class(e)
     try:
+        import warnings
+        with warnings.catch_warnings():
+            warnings.simplefilter("ignore")
+            # deprecated route: a plain dict instead of a Directory
+            res["manifest_from_dict_arg"] = git_objects.directory_git_object(
+                {"entries": [{"name": bytes.fromhex(n), "type": t, "target": bytes.fromhex(tg), "perms": p}
+                             for n, t, tg, p in c["entries"]]}).hex()
+    except Exception as e:
+        res["manifest_from_dict_arg"] = "error:" + exc_class(e)
+    try:
         d3 = Directory.from_dict({"entries": [{"name": bytes.fromhex(n), "type": t, "target": bytes.fromhex(tg), "perms": p}
                                               for n, t, tg, p in c["entries"]]})
         res["id_from_dict"] = d3.id.hex()
@@ -199,6 +209,8 @@ def oracle(c, ires, mres):
         return "id is not the SHA-1 of the manifest"
     if ires["id_perm"] != ires["id"]:
         return "id depends on the order of the entries: %s vs %s" % (ires["id"], ires["id_perm"])
+    if ires["manifest_from_dict_arg"] != ires["manifest"]:
+        return "directory_git_object(<dict>) differs from directory_git_object(<Directory>)"
     if ires["id_from_dict"] != ires["id"] or ires["compute_hash"] != ires["id"]:
         return "id differs between constructor / from_dict / compute_hash"
     if ires["swhid"] != "swh:1:dir:" + ires["id"]:
@@ -283,3 +295,14 @@ def pre_checks(ctx):
     finally:
         subprocess.run(["rm", "-rf", d])
     return out
+
+
+# functions of /repo whose executed-line coverage by this run is reported in the evidence
+ANCHORS = [('swh/model/git_objects.py', 'directory_entry_sort_key'),
+           ('swh/model/git_objects.py', '_perms_to_bytes'),
+           ('swh/model/git_objects.py', 'directory_git_object'),
+           ('swh/model/git_objects.py', 'format_git_object_from_parts'),
+           ('swh/model/hashutil.py', 'git_object_header'),
+           ('swh/model/model.py', 'DirectoryEntry.check_name'),
+           ('swh/model/model.py', 'Directory.check_entries'),
+           ('swh/model/model.py', 'Directory._compute_hash_from_attributes')]
